@@ -412,8 +412,47 @@ def _m26(P):
 }''')
 
 
+# The two mutants below only DELAY the removal within the slack the stream has to grant on a loaded machine
+# (must-be-gone = expired for 10 intervals + 500 ms, re-checked after another 10 intervals + 400 ms): they
+# are expected to be missed and are not part of the default set.
+SLOW = {}
+
+
+def slow(name, what):
+    def deco(f):
+        SLOW[name] = (what, f)
+        return f
+    return deco
+
+
+@slow('s1', 'the expiry runs only on every 4th tick')
+def _s1(P):
+    P('engine.go', """		case <-ticker.C:
+		}
+""", """		case <-ticker.C:
+		}
+		if tickNo++; tickNo%4 != 0 {
+			continue
+		}
+""")
+    P('engine.go', """	for {
+		// await next interval
+""", """	tickNo := 0
+	for {
+		// await next interval
+""")
+
+
+@slow('s2', 'ExpireInterval below 500 ms is clamped to 500 ms')
+def _s2(P):
+    P('engine.go', """	ticker := time.NewTicker(interval)""", """	if interval < 500*time.Millisecond {
+		interval = 500 * time.Millisecond
+	}
+	ticker := time.NewTicker(interval)""")
+
+
 def run(name, n, seed):
-    what, f = MUTANTS[name]
+    what, f = MUTANTS.get(name) or SLOW[name]
     copy = "/tmp/ttlclock-mut-" + name
     shutil.rmtree(copy, ignore_errors=True)
     shutil.copytree("/repo", copy, ignore=shutil.ignore_patterns(".git"))
